@@ -77,7 +77,8 @@ func runFuzz(id, target string, budget time.Duration, cfg propCfg, bin, rundir s
 		cmd.Dir = cwd
 		cmd.Env = append(env(),
 			"VERIF_PROP="+id, "VERIF_TIER=thorough", "VERIF_FUZZ_DIR="+fdir, "VERIF_OUT="+fdir,
-			"VERIF_WORK="+filepath.Join(rundir, "work"), "VERIF_ROOT="+root, "VERIF_SEED="+strconv.FormatInt(seed, 10))
+			"VERIF_WORK="+filepath.Join(rundir, "work"), "VERIF_ROOT="+root, "VERIF_SEED="+strconv.FormatInt(seed, 10),
+			"VERIF_BIN="+filepath.Join(rundir, "bin"))
 		var buf bytes.Buffer
 		cmd.Stdout = &buf
 		cmd.Stderr = &buf
@@ -118,9 +119,7 @@ func runFuzz(id, target string, budget time.Duration, cfg propCfg, bin, rundir s
 				}
 			}
 		}
-		if runErr == nil {
-			break // budget used without a failure
-		}
+		cleanEnd := runErr == nil
 		// candidates: the smallest case per signature
 		type cand struct {
 			path string
@@ -190,10 +189,14 @@ func runFuzz(id, target string, budget time.Duration, cfg propCfg, bin, rundir s
 			}
 		}
 		for k, s := range sigs {
-			if confirmedSigs[s] {
+			if confirmedSigs[s] || k >= 24 {
 				continue
 			}
 			confirm(best[s].path, k)
+		}
+		if cleanEnd {
+			// budget used; candidates left without failing an input were confirmed above
+			break
 		}
 		if len(sigs) == 0 {
 			// a worker died (hang, stack overflow, fatal error): its last case is in current-<pid>.json
